@@ -227,7 +227,8 @@ impl Model for Machine {
                     let by_val: RistrettoPoint = vec![p, q].into_iter().sum();
                     let owned = [p + q, p + &q, &p + q];
                     let want = by_ref.compress();
-                    assert!(by_val.compress() == want && owned.iter().all(|x| x.compress() == want), "Sum / owned Add variants disagree");
+                    let by_filter: RistrettoPoint = [p, q].iter().filter(|_| std::hint::black_box(true)).sum();
+                    assert!(by_val.compress() == want && by_filter.compress() == want && owned.iter().all(|x| x.compress() == want), "Sum (exact and filtered iterators) / owned Add variants disagree");
                     let dif = [p - q, p - &q, &p - q];
                     let wd = (&p - &q).compress();
                     assert!(dif.iter().all(|x| x.compress() == wd), "owned Sub variants disagree");
